@@ -162,6 +162,37 @@ class ApplyField(Contract):
     def on_raise(self, exc, old, self_, check_obj):
         return {"only_the_check_function_raises": exc.attrs.get("__from_callback__") is not None}
 
+    def concretize(self, rec):
+        def thunk():
+            """element_wise=True must give the verdict and failure cases of the vectorised check `lambda s: s.map(f)`"""
+            import numpy as np
+            import pandas as pd
+            import pandera as pa
+
+            seen = []
+
+            def f(x):
+                seen.append(x)
+                return x > 0
+
+            bad, obs = False, {}
+            for data in ([1.0, np.nan], [1.0, 2.0], [np.nan, -1.0]):
+                for ign in (False, True):
+                    s = pd.Series(data)
+                    out = []
+                    for chk in (pa.Check(f, element_wise=True, ignore_na=ign), pa.Check(lambda s: s.map(f), ignore_na=ign)):
+                        try:
+                            pa.SeriesSchema(float, chk, nullable=True).validate(s)
+                            out.append("accept")
+                        except pa.errors.SchemaError as e:
+                            out.append("reject:" + str(sorted(map(str, e.failure_cases["failure_case"]))))
+                    if out[0] != out[1]:
+                        bad = True
+                        obs[f"data={data} ignore_na={ign}"] = {"element_wise": out[0], "vectorised s.map(f)": out[1]}
+            return bad, obs or "element-wise and vectorised verdicts agree on the probe series"
+
+        return thunk
+
 
 class GroupHead:
     """failure_cases.groupby(check_output).head(n): keeps at most n rows per group - a sub-view (axiom)."""
